@@ -41,6 +41,7 @@ for prop, patch in jobs:
     r = subprocess.run(["git", "-C", scratch, "apply", "--whitespace=nowarn", patch], stderr=subprocess.PIPE, text=True)
     if r.returncode:
         results.append((prop, name, "PATCH-DOES-NOT-APPLY", r.stderr.strip()[:200]))
+        print("%-4s %-60s %-12s %s" % results[-1], flush=True)
         continue
     base = ""
     if baseline:
@@ -60,7 +61,11 @@ for prop, patch in jobs:
     if name.startswith("seeded/"):
         mp = os.path.join(os.path.dirname(patch), "meta.json")
         meta = json.load(open(mp))
+        note = (meta.get("check_result") or {}).get("note")
         meta["check_result"] = {"verdict": verdict, "caught_by": classes, "cmd": "./check %s --tier quick (VERIF_REPO=scratch worktree of /repo %s + patch.diff)" % (prop, head)}
+        if note and verdict == "MISSED":  # an analysed non-detection keeps its explanation
+            meta["check_result"]["verdict"] = "MISSED-EXPLAINED"
+            meta["check_result"]["note"] = note
         json.dump(meta, open(mp, "w"), indent=1)
     else:
         rp = os.path.join(VERIF, "mutants", prop, "RESULTS.json")
